@@ -104,8 +104,9 @@ class RawMessage(Harness):
         auth_only = bool(c04.choose(ex, 'authoritative_only', 2))
         t0 = Int(1 << 40, 'u64'); ex.env['clock'] = lambda ex_: Agg('Instant', None, [Cell(t0)])
         zones, cache = build_state(ex, w)
+        zlock = Agg('Mutex', None, [zones]); self._zones_lock = zlock
         args = mk_struct(w, 'ListenArgs', authoritative_only=auth_only, protocol_mode=mk_enum(w, 'ProtocolMode', 'PreferV4'), upstream_dns_port=Int(5353, 'u16'),
-                         forward_address=opt(None), zones_lock=Agg('Arc', None, [Cell(Agg('Mutex', None, [zones]))]), cache=cache)
+                         forward_address=opt(None), zones_lock=Agg('Arc', None, [Cell(zlock)]), cache=cache)
         self.calls = []
         ex.overrides[w.find_fn(r'(^|::)query_nameserver$').name] = self.upstream
         ex.overrides[w.find_fn(r'^prune_cache_and_update_metrics$').name] = lambda ex_, a: unit()
